@@ -610,6 +610,9 @@ func (s *Sim) waitForD(timeout time.Duration, pred func(ev *Event) bool) *Event 
 // starved reports whether this process is currently being scheduled so late that the
 // driver's liveness bounds (seconds) say nothing about the engine: five 2 ms sleeps, one of
 // which overshoots by more than 40 ms.
+// Starved is starved() for checks that keep their own watchdogs.
+func Starved() bool { return starved() }
+
 func starved() bool {
 	for i := 0; i < 5; i++ {
 		t0 := time.Now()
